@@ -120,6 +120,19 @@ func (s *scen) outputs() []string {
 	return good
 }
 
+// indexOutputs lists block-index modules usable as the OUTPUT module of a request (legitimate: tier1 then only builds
+// the index files while back-processing and streams the keys in the linear part).
+func (s *scen) indexOutputs() []string {
+	var good []string
+	for name, k := range s.pkg.Kind {
+		if k == "index" && s.ref(name) != nil {
+			good = append(good, name)
+		}
+	}
+	sort.Strings(good)
+	return good
+}
+
 func (s *scen) witness(extra map[string]any) map[string]any {
 	w := map[string]any{"segment_size": s.seg, "modules": s.pkg.Describe(), "head": s.cl.Head}
 	for k, v := range extra {
